@@ -323,23 +323,24 @@ PROPS = {
 RULE_ADDENDA = {
     "C01": "Also generated: hook answers carrying a status stanza / own annotations / echoed observed annotations; discovery order; debug-verbosity logging; a matching orphan appearing under a replicated child name; scale-to-zero, foreign re-creation, scale back.",
     "C02": "Also generated: desired children carrying a plain owner or a foreign controller reference; an edit of the parent selector (hook following) between syncs; writes to objects the same sync released are judged separately from the known ownership-transfer finding.",
-    "C03": "Also generated: an ignored spec.selector on parents of generateSelector controllers; hook-set annotations; discovery order.",
-    "C04": "Also generated: the parent replaced by an object with another selector; an owned child relabelled; a co-owner reference added to the object of a chosen request right before it.",
+    "C03": "Also generated: an ignored spec.selector on parents of generateSelector controllers; hook-set annotations; discovery order. A declared child kind hidden from discovery for one sync; the parent deleted while the parent cache is stale.",
+    "C04": "Also generated: the parent replaced by an object with another selector; an owned child relabelled; a co-owner reference added to the object of a chosen request right before it. Negative-only selectors with unlabeled children; a 503 on the fresh parent read before an adoption.",
     "C06": "Also generated: desired children with a status stanza, hook-set annotations or an explicitly empty list; an injected name-keyed list entry; someone already setting the field (and value) the hook is about to add; debug-verbosity logging.",
-    "C07": "Also generated: hooks without any status; mixed matchLabels/matchExpressions selectors; condition styles of healthy children (timestamps with and without zone, a malformed neighbour condition).",
-    "C08": "Also generated: a second rolling kind whose children share the names of the first (liveness rules only); mixed selectors; observedGeneration and condition styles.",
-    "C09": "Also generated: hook failure for the latest revision's call only / for superseded revisions' calls only (no write may follow); the parent deleted mid-rollout under a finalize hook that keeps the children; the not-ahead rule is judged at every sync boundary.",
-    "C10": "Also generated: 404 and conflict-on-every-retry on the finalizer write; a foreign finalizer holding the parent; selectors rendered as matchExpressions.",
-    "C11": "Also generated: sync answers that say finalized; discovery order (status subresource listed before the resource).",
-    "C12": "Also generated: plain 404 at every request; scenarios whose faulted sync is the finalize or finalizer-removal sync of a deleted parent; a customize hook whose calls are faulted too, with the related map after recovery compared; a 404 on a read of the parent must lead to a retry or to all non-parent work being done.",
-    "C13": "Also generated: per-field lists of type-correct but unusable values (selectors that cannot be converted, impossible names, versions, resources); after a customize attack related add/update/delete events are delivered to the handlers.",
+    "C07": "Also generated: hooks without any status; mixed matchLabels/matchExpressions selectors; condition styles of healthy children (timestamps with and without zone, a malformed neighbour condition). Purely additive edits of a revisioned field (a key appears / disappears).",
+    "C08": "Also generated: a second rolling kind whose children share the names of the first (liveness rules only); mixed selectors; observedGeneration and condition styles. Additive edits as first or second change; rollbacks.",
+    "C09": "Also generated: hook failure for the latest revision's call only / for superseded revisions' calls only (no write may follow); the parent deleted mid-rollout under a finalize hook that keeps the children; the not-ahead rule is judged at every sync boundary. Additive edits; a sync that runs on a ControllerRevision cache one sync behind; and a separate job on the real start-up path (Reconcile/Start, real informers): instance A brings 2-4 children up and is stopped, the template is edited, instance B starts while the simulator holds back its ControllerRevision LIST for 120-400 ms - no mutating request for children or revisions may arrive before that LIST is answered, and the rollout must complete afterwards (non-trivial = the LIST was actually held).",
+    "C10": "Also generated: 404 and conflict-on-every-retry on the finalizer write; a foreign finalizer holding the parent; selectors rendered as matchExpressions. The finalize answer must re-create missing children; a matching orphan appears / a child is deleted externally mid-finalization.",
+    "C11": "Also generated: sync answers that say finalized; discovery order (status subresource listed before the resource). The parent deleted and finalizing between syncs.",
+    "C12": "Also generated: plain 404 at every request; scenarios whose faulted sync is the finalize or finalizer-removal sync of a deleted parent; a customize hook whose calls are faulted too, with the related map after recovery compared; a 404 on a read of the parent must lead to a retry or to all non-parent work being done. 409 on a child delete (must be retried); 6-11 consecutive failed syncs; a restart under server-side apply.",
+    "C13": "Also generated: per-field lists of type-correct but unusable values (selectors that cannot be converted, impossible names, versions, resources); after a customize attack related add/update/delete events are delivered to the handlers. Malformed answers during a rollout, optionally for superseded revisions only; in strict mode an unknown field of the real response types must be rejected.",
     "C14": "Also generated: selectors rendered as matchExpressions.",
-    "C15": "Also generated: empty / expression-only selectors in invalid mixes; selectors that cannot be converted; parents deleted and held by the finalizer.",
+    "C15": "Also generated: empty / expression-only selectors in invalid mixes; selectors that cannot be converted; parents deleted and held by the finalizer. A separate job on the live path (real Reconcile/Start and shared informers, the customize manager registering its own handlers): rules naming gadgets, the controller's own parent resource (peers) or its child resource, by label or not; 2-5 create/update/delete operations on related objects, each selected one must make the hook be called again for the parent with exactly the selected set (non-trivial = a selected object changed).",
     "C16": "Also generated: target deletion, target replacement and a stale target cache between syncs; selectors as matchExpressions; empty-string patch values; every target write is judged on the live object before/after it (UID, spec, foreign metadata).",
-    "C17": "Carriers now include the C08 and C09 generators (with stored ControllerRevisions relisted in another order). The concurrent-vs-sequential comparison includes the related-informer subscription counts and the related map of every hook call.",
-    "C18": "Also generated: failed subscribes to a resource discovery does not know yet (installed later); a handler still replaying while an object appears; widgets subscribed through a second served version with the delivered apiVersion checked; handlers with their own resync take 3 ms per event; every informer call runs under a 10 s watchdog.",
-    "C19": "Single calls also vary what the cache was warmed with (well-formed, unknown field, duplicate field); cache entries: first answer (200, 200 cut off mid-body, 500/404 with an ETag, undecodable 200) x second call about the same parent / another kind / namespace / name x 304/412/200.",
+    "C17": "Carriers now include the C08 and C09 generators (with stored ControllerRevisions relisted in another order). The concurrent-vs-sequential comparison includes the related-informer subscription counts and the related map of every hook call. Parents in two namespaces.",
+    "C18": "Also generated: failed subscribes to a resource discovery does not know yet (installed later); a handler still replaying while an object appears; widgets subscribed through a second served version with the delivered apiVersion checked; handlers with their own resync take 3 ms per event; every informer call runs under a 10 s watchdog. An object deleted and re-created under the same name; at most three watch breaks per case (the reflector's pause doubles).",
+    "C19": "Single calls also vary what the cache was warmed with (well-formed, unknown field, duplicate field); cache entries: first answer (200, 200 cut off mid-body, 500/404 with an ETag, undecodable 200) x second call about the same parent / another kind / namespace / name x 304/412/200. Calls may repeat their request (answered by the scripted server on its own with current content or a decodable error page, outcome judged).",
     "C20": "Also generated: a customize hook that names related resources, with the related LIST or the customize webhook hanging while the controller is stopped.",
+    "C05": "Also generated: List-maps unique under the merge key that takes precedence and repeated under a later one (one volume mounted at two paths).",
 }
 for _k, _v in RULE_ADDENDA.items():
     PROPS[_k]["rule"] = PROPS[_k]["rule"] + " " + _v
